@@ -117,6 +117,7 @@ def mk(g, rcpt, payload, amt=0, snd=0, ty=GOV, fork=3, **kw):
         payload = json.dumps(payload)
     if isinstance(payload, str):
         payload = payload.encode()
+    kw = {k: v for k, v in kw.items() if v is not None}
     d = {"g": g, "rcpt": rcpt, "p": base64.b64encode(payload).decode(), "amt": str(amt), "snd": snd, "ty": ty, "fork": fork}
     d.update(kw)
     return d
@@ -343,6 +344,32 @@ def gen_cases(ctx, extra_bias=None):
     cases.append(mk(gi, "aergo.system", '{"Name":"v1stake"}', rcptraw="aa" * 33))
     cases.append(mk(gi, "aergo.system", '{"Name":"v1stake"}', badhash=True))
     cases.append(mk(gi, "aergo.system", '{"Name":"v1stake","Args":["' + "x" * (210 * 1024) + '"]}'))
+    # payload sizes around types.TxMaxSize (200 KiB of serialised tx): undecodable filler keeps the case small for the model
+    for fill in (200 * 1024 - 400, 200 * 1024 - 200, 200 * 1024 - 150, 200 * 1024 - 100, 200 * 1024, 200 * 1024 + 1, 300 * 1024):
+        cases.append(mk(newg(), "aergo.system", "{", payfill=fill))
+        cases.append(mk(newg(), "aergo.name", "x", payfill=fill, ty=rng.choice([GOV, TRANSFER, CALL, DEPLOY])))
+    # amount / gas price byte fields: boundary values, leading zeros, very long fields (big.Int.SetBytes is unsigned)
+    be = lambda n: n.to_bytes((n.bit_length() + 7) // 8 or 1, "big").hex()
+    for raw in (be(MAXAER), be(MAXAER + 1), be(MAXAER - 1), "00" * 40 + be(5), "ff" * 33, "80" + "00" * 32, "ff" * 100000, ""):
+        cases.append(mk(newg(), "aergo.system", '{"Name":"v1stake"}', amtraw=raw))
+        cases.append(mk(newg(), "aergo.system", '{"Name":"v1stake"}', priceraw=raw))
+        cases.append(mk(newg(), "aergo.name", '{"Name":"v1createName","Args":["abcdefghijkl"]}', amtraw=raw, ty=rng.choice([GOV, TRANSFER])))
+    for ty in (-1, 8, 9, 100, 2 ** 31 - 1):
+        cases.append(mk(newg(), "aergo.system", '{"Name":"v1stake"}', ty=ty))
+    for n in (0, 1, 12, 32, 33, 34, 64, 1000):
+        cases.append(mk(newg(), "aergo.system", '{"Name":"v1stake"}', acctlen=n or None))
+        cases.append(mk(newg(), "aergo.system", '{"Name":"v1stake"}', rcptraw="61" * n if n else None, ty=rng.choice([GOV, TRANSFER, NORMAL])))
+    # JSON number formats, duplicate keys, depth limits of encoding/json
+    deep = "[" * 10001 + "]" * 10001
+    for pl in ('{"Name":"v1voteBP","Args":[1e400]}', '{"Name":"v1voteBP","Args":[-0]}', '{"Name":"v1voteBP","Args":[1E+308, 1e-400, 0.0000001]}',
+               '{"Name":"v1voteDAO","Args":["BPCOUNT", 13.0]}', '{"Name":"v1stake","Name":"v1voteBP","Args":[1],"Args":[]}',
+               '{"name":"v1stake","NAME":"v1voteDAO","args":[],"ARGS":["BPCOUNT"]}', '{"Name":"v1voteBP","Args":%s}' % deep,
+               '{"Name":"v1voteBP","Args":[%s]}' % ("[" * 200 + "]" * 200), '{"Name":"v1voteBP","Args":[1e-999999999999]}',
+               '{"Name":"v1voteBP","Args":[01]}', '{"Name":"v1voteBP","Args":[0x10]}', '{"Name":"v1voteBP","Args":[NaN]}',
+               '{"Name":"v1voteBP","Args":["\\ud800"]}', '{"Name":"\\u0076\\u0031stake"}', ' \n{"Name":"v1stake"} \n', '{"Name":"v1stake"}{"Name":"v1unstake"}'):
+        gi = newg()
+        cases += SYS_SETUP(gi)
+        cases.append(mk(gi, "aergo.system", pl))
     cases.append(mk(gi, "aergo.system", '{"Name":"v1stake"}', raft=True))
     cases.append(mk(gi, "aergo.enterprise", '{"name":"appendAdmin","args":["@A0"]}', pub=True))
     # raw byte stream: random bytes and byte-level mutations of valid payloads
@@ -429,10 +456,15 @@ def coq_case(c, o):
         cinfo = "(Some (mkCI %s [%s]))" % (cs(o["name"]), ";".join(cjson(a) for a in o["args"]))
     else:
         cinfo = "None"
-    size_ok = len(payload) < 200 * 1024 - 512
-    tx = "(mkTx false true %s false %s %s true %d %d %s %d %s %s %s %s %s)" % (
-        B(size_ok), B(not c.get("badhash")), B(amt <= MAXAER), len(acct), len(rcpt),
-        TYNAME.get(c["ty"], "TOther"), 1 if payload else 0, B(amt == 0), cs(rcpt.hex()),
+    size_ok = o["proto_size"] <= 200 * 1024          # types.TxMaxSize; proto.Size is reported by the engine
+    if c.get("amtraw"):
+        amt = min(int.from_bytes(bytes.fromhex(c["amtraw"]), "big"), 10 ** 40)   # capped: only comparisons with balances matter
+    price_ok = True
+    if c.get("priceraw"):
+        price_ok = int.from_bytes(bytes.fromhex(c["priceraw"]), "big") <= MAXAER
+    tx = "(mkTx false true %s false %s %s %s %d %d %s %d %s %s %s %s %s)" % (
+        B(size_ok), B(not c.get("badhash")), B(amt <= MAXAER), B(price_ok), len(acct), len(rcpt),
+        TYNAME.get(c["ty"], "TOther"), 1 if o["payload_len"] else 0, B(amt == 0), cs(rcpt.hex()),
         cinfo, vf.coq_Z(amt), cs(acct.hex()))
     env = "(mkEnv %s %s %s)" % (B(c.get("pub", False)), B(not c.get("raft", False)), B(c.get("raft", False)))
     sysv = "(mkSys %d %d %s %s %s [%s] %s)" % (
@@ -477,7 +509,7 @@ def eval_cases(ctx, cases, obs, tag):
     from concurrent.futures import ThreadPoolExecutor
     shard = 100
     # very large payloads (tx size limit case) are checked by the direct predicate only
-    keep = [i for i, c in enumerate(cases) if len(c["p"]) < 12000]
+    keep = [i for i, c in enumerate(cases) if len(c["p"]) < 12000 and (len(json.dumps(obs[i].get("args"))) < 20000)]
 
     def one(s0):
         ids = keep[s0:s0 + shard]
@@ -513,6 +545,60 @@ def run_engine(ctx, binp, cases, tag):
     if len(obs) != len(cases):
         raise RuntimeError("C14 engine: %d observations for %d cases" % (len(obs), len(cases)))
     return hdr, obs
+
+
+def pool_differential(ctx, poolbin, cases, obs):
+    """Run the transactions that engine 1 executed on a pristine setup state through the REAL
+    mempool.verifyTx / validateTx (engine 2) and compare the outcome classes."""
+    setups = {}
+    for kind, mkfn in (("staked", SYS_SETUP), ("admin", ENT_SETUP), ("named", NAME_SETUP)):
+        c0 = mkfn(0)[0]
+        setups[(c0["rcpt"], c0["p"], c0["amt"])] = kind
+    plain = lambda c: (c["ty"] == GOV and c["fork"] == 3 and c["snd"] in (0, 1, 2, 3) and
+                       not any(c.get(k) for k in ("raft", "pub", "acctlen", "rcptraw", "badhash", "amtraw", "priceraw", "payfill", "bno", "commit")))
+    pcs, idx = [], []
+    groups = {}
+    for i, c in enumerate(cases):
+        groups.setdefault(c["g"], []).append(i)
+    for g, ids in groups.items():
+        kind, start = "none", 0
+        c0 = cases[ids[0]]
+        k0 = setups.get((c0["rcpt"], c0["p"], c0["amt"]))
+        if k0 and c0["snd"] == 0 and plain(c0) and obs[ids[0]]["exec"].startswith("OK SUCCESS"):
+            kind, start = k0, 1
+        for i in ids[start:]:
+            if not plain(cases[i]) or len(cases[i]["p"]) > 20000:
+                break
+            pcs.append({"setup": kind, "rcpt": cases[i]["rcpt"], "p": cases[i]["p"], "amt": cases[i]["amt"], "snd": cases[i]["snd"], "ty": cases[i]["ty"]})
+            idx.append(i)
+            if obs[i]["exec"].startswith("OK SUCCESS") or obs[i]["exec"].startswith("PANIC"):
+                break          # the state is no longer the pristine setup state
+    fin = os.path.join(ctx.workdir, "c14pool.in")
+    fout = os.path.join(ctx.workdir, "c14pool.out")
+    with open(fin, "w") as f:
+        for c in pcs:
+            f.write(json.dumps(c) + "\n")
+    rc, log = ctx.run_bin(poolbin, ["-test.run", "TestVerifC14MempoolEngine"], env={"VERIF_IN": fin, "VERIF_OUT": fout}, timeout=900)
+    if rc != 0:
+        raise RuntimeError("C14 mempool engine failed:\n" + log[-3000:])
+    pobs = [json.loads(l) for l in open(fout)]
+    if len(pobs) != len(pcs):
+        raise RuntimeError("C14 mempool engine: %d observations for %d cases" % (len(pobs), len(pcs)))
+    fails, diffs = [], []
+    for c, po, i in zip(pcs, pobs, idx):
+        rep = {"how": "real mempool.verifyTx / validateTx on the state after setup '%s' (engine harness/engines/admit, TestVerifC14MempoolEngine)" % c["setup"],
+               "tx": dict(c, payload=base64.b64decode(c["p"]).decode(errors="backslashreplace")), "verifyTx": po["verify"], "validateTx": po["validate"],
+               "engine1": {"Validate": obs[i]["v_types"], "stateful": obs[i]["v_state"]}}
+        rep["tx"].pop("p")
+        for st in ("verify", "validate"):
+            if po[st].startswith("PANIC"):
+                fails.append(("C14:panic:mempool:%s:%s" % (c["rcpt"], st), "mempool.%sTx panics: %s" % (st, po[st][:160]), rep))
+        a1, b1 = classify(po["verify"], "types"), classify(obs[i]["v_types"], "types")
+        if a1 != b1:
+            diffs.append(rep)
+        elif a1 == "COk" and classify(po["validate"], "state") != classify(obs[i]["v_state"], "state"):
+            diffs.append(rep)
+    return fails, diffs, len(pcs)
 
 
 def gen_sites(ctx):
@@ -570,8 +656,14 @@ def run(ctx):
     if rc != 0:
         raise RuntimeError("admit engine build failed:\n" + log[-3000:])
 
+    rc, log, poolbin = ctx.go_test_binary("mempool", [os.path.join(vf.HARNESS, "engines/admit/zz_verif_c14_mempool_engine_test.go")],
+                                          "admit_mempool.test")
+    if rc != 0:
+        raise RuntimeError("mempool engine build failed:\n" + log[-3000:])
+
     cases, ncorpus = gen_cases(ctx)
     hdr, obs = run_engine(ctx, binp, cases, "c14")
+    pool_fail, pool_diff, npool = pool_differential(ctx, poolbin, cases, obs)
     # ---- direct predicate: no panic anywhere
     pred_fail = []
     for i, (c, o) in enumerate(zip(cases, obs)):
@@ -579,6 +671,8 @@ def run(ctx):
             if o[stage].startswith("PANIC"):
                 pred_fail.append((panic_key(c, o, stage), "%s panics: %s" % (stage, o[stage][:160]), i))
                 break
+    for key, what, rep in pool_fail:
+        pred_fail.append((key, what, rep))
     # ---- correspondence
     mism, out = eval_cases(ctx, cases, obs, "cases")
     corr_broken = None
@@ -590,6 +684,9 @@ def run(ctx):
         if rest:
             corr_broken = ("model/implementation differ on outcome class or enterprise post-state",
                            [replay_of(cases, obs, i) for i in rest[:3]])
+    if pool_diff and not corr_broken:
+        corr_broken = ("the real mempool.verifyTx / validateTx outcome differs from the modelled admission (engine 1) on the same state and transaction",
+                       pool_diff[:3])
     # ---- directed search when an obligation broke and nothing failed yet
     unknown = None
     if not pr["ok"] and not pred_fail:
@@ -632,7 +729,7 @@ def run(ctx):
         "admitted": sum(1 for o in obs if o["v_types"] == "OK" and o["v_state"] == "OK"),
         "executed_success": sum(1 for o in obs if o["exec"].startswith("OK SUCCESS")),
         "exec_classes": {k: v for k, v in sorted(classes.items(), key=lambda kv: -kv[1])[:25]},
-        "panic_sites_in_source": site_count(),
+        "panic_sites_in_source": site_count(), "real_mempool_admission_cases": npool,
     }
     for i in (0, len(cases) // 2, len(cases) - 1):
         ctx.sample({"case": {k: cases[i][k] for k in ("rcpt", "amt", "snd", "fork")}, "payload": base64.b64decode(cases[i]["p"])[:120].decode(errors="replace"),
@@ -646,7 +743,7 @@ def run(ctx):
         seen.add(key)
         if len(seen) > 6:
             break
-        ctx.finding(key, what, replay_of(cases, obs, i))
+        ctx.finding(key, what, replay_of(cases, obs, i) if isinstance(i, int) else i)
     if not pr["ok"] and not pred_fail:
         ctx.violation("proof obligation no longer checks: %s" % pr["broken"],
                       {"theorem_or_file": pr["broken"], "unaccounted_panic_sites": unknown, "log": pr["log"][-3000:],
